@@ -680,7 +680,7 @@ class FunctionExtension(FilterExpression):
         except KeyError:
             return UNDEFINED  # TODO: should probably raise an exception
         args = [arg.evaluate(context) for arg in self.args]
-        return func(*self._unpack_node_lists(func, args))
+        return self._call(func, args)
 
     async def evaluate_async(self, context: FilterContext) -> object:
         try:
@@ -688,7 +688,15 @@ class FunctionExtension(FilterExpression):
         except KeyError:
             return UNDEFINED  # TODO: should probably raise an exception
         args = [await arg.evaluate_async(context) for arg in self.args]
-        return func(*self._unpack_node_lists(func, args))
+        return self._call(func, args)
+
+    def _call(self, func: Callable[..., Any], args: List[object]) -> object:
+        try:
+            return func(*self._unpack_node_lists(func, args))
+        except (TypeError, AttributeError) as err:
+            # An argument of a kind the function can't handle. These are found
+            # at compile time, unless type checks have been turned off.
+            raise JSONPathTypeError(f"{self.name}(): {err}") from err
 
     def _unpack_node_lists(
         self, func: Callable[..., Any], args: List[object]
